@@ -1,12 +1,12 @@
 """C04 — waits return at the right time for exactly one cause; no stale wake-ups.
 
 Proof:  Props/C04.lean over the process-layer model CimbaModel/Sim.
-Tie:    harness/simdrv.c <-> Drivers/SimMain.lean on generated scenarios (profiles timers, lifecycle, resource, mixed, cond, pool), complete observable logs;
+Tie:    harness/simdrv.c <-> Drivers/SimMain.lean on generated scenarios (profiles timers, lifecycle, resource, mixed, cond, pool, timerso), complete observable logs;
         tools/simmon.py (C04 clauses) on every implementation log. See tools/simcheck.py.
 """
 import simcheck
 
-PROFILES = ['timers', 'lifecycle', 'resource', 'mixed', 'cond', 'pool']
+PROFILES = ['timers', 'lifecycle', 'resource', 'mixed', 'cond', 'pool', 'timerso']
 
 
 def run(chk):
